@@ -134,6 +134,12 @@ func run(repo, dir string, seed uint64, tier string, nprog, nwild int, keep bool
 		if i%2 == 1 {
 			addClash(r, p, i, i%4 == 3, out.Count) // colliding field names and struct literals over them
 		}
+		if i%3 != 2 {
+			addShadow(p, i, out.Count) // same names in includer and include, referenced from values of foreign types
+		}
+		if i%2 == 0 {
+			addElems(p, i, out.Count) // struct constants as container elements
+		}
 		countProgramShapes(out, p)
 		if i%5 == 1 || i%5 == 3 {
 			(&decorator{r: r, every: 60, count: out.Count}).program(p) // comments and white space around the tokens of values
@@ -154,7 +160,9 @@ func run(repo, dir string, seed uint64, tier string, nprog, nwild int, keep bool
 		var cat []batch.Unit
 		for _, cp := range catalogue() {
 			sets := [][]string{{}}
-			if cp.vtic {
+			if cp.opts != nil {
+				sets = cp.opts
+			} else if cp.vtic {
 				sets = append(sets, []string{"value_type_in_container"})
 			} else {
 				sets = append(sets, []string{"enum_as_int_32", "naming_style=golint", "nil_safe"})
@@ -185,6 +193,7 @@ func run(repo, dir string, seed uint64, tier string, nprog, nwild int, keep bool
 			out.Count("unit.unusable")
 			out.Sample(map[string]interface{}{"unusable_unit": u.Key, "options": u.Options, "build": first(u.BuildErrors, 3), "exit": u.Exit, "stderr": firstLines(u.Stderr, 3)})
 			fmt.Printf("UNIT %s unusable (C01's business): exit=%d %s %s\n", u.Key, u.Exit, firstLines(u.Stderr, 2), strings.Join(first(u.BuildErrors, 2), " | "))
+			reportInitialiserErrors(out, mod, u, units[i].Prog)
 			if u.Exit == 0 && len(u.ParseErrors) == 0 {
 				// the output parses but does not compile: no values, but the initialiser texts are still compared
 				tu := &unitData{u: u, prog: units[i].Prog, defect: defectOf[i], textOnly: true}
@@ -685,4 +694,58 @@ func aliasesConstant(p *idlgen.Program, st *idlgen.SStruct) bool {
 		}
 	}
 	return false
+}
+
+var buildErrRe = regexp.MustCompile(`^(u\d+/[^:\s]+\.go):(\d+):(\d+): (.*)$`)
+
+// reportInitialiserErrors: a unit that does not compile is C01's business -- unless the compiler points into the
+// code generated for a constant or a default (const/var groups, _DEFAULT variables, NewX literal, InitDefault):
+// then the constant is not available with its value, which is this property. Key = tag, options, compiler message.
+func reportInitialiserErrors(out *vl.Out, mod string, u *batch.UnitInfo, prog *idlgen.Program) {
+	files := map[string]*goFile{}
+	seen := map[string]bool{}
+	for _, ln := range u.BuildErrors {
+		m := buildErrRe.FindStringSubmatch(strings.TrimSpace(ln))
+		if m == nil {
+			continue
+		}
+		g, ok := files[m[1]]
+		if !ok {
+			g, _ = scanGoFile(mod, m[1])
+			files[m[1]] = g
+		}
+		if g == nil {
+			continue
+		}
+		var line int
+		fmt.Sscan(m[2], &line)
+		if !g.inInitialiser(line) {
+			continue
+		}
+		if has(u.Options, "use_type_alias=false") && !strings.HasPrefix(u.Tag, "cat:") {
+			// named (non-alias) typedef types reject the constants of their base type: the aimed unit `noalias_enum`
+			// reports that defect under a stable key; the random units only count it
+			out.Count("compile_error_in_initialiser.use_type_alias_false")
+			continue
+		}
+		msg := strings.ReplaceAll(m[4], u.Key+"/", "")
+		if i := strings.LastIndex(msg, " value in "); i > 0 {
+			msg = msg[:i+6] // the same mistake in the NewX literal, in InitDefault and in the _DEFAULT variable is one finding
+		}
+		key := "compile:" + u.Tag + ":" + strings.Join(u.Options, ",") + ":" + msg
+		if seen[key] {
+			continue
+		}
+		seen[key] = true
+		src := strings.Split(string(g.src), "\n")
+		text := ""
+		if line-1 < len(src) {
+			text = strings.TrimSpace(src[line-1])
+		}
+		fmt.Printf("ORACLE FAIL [%s %s] the code generated for a constant/default does not compile: %s  (%s)\n", u.Key, strings.Join(u.Options, ","), msg, text)
+		out.Count("compile_error_in_initialiser")
+		out.Fail(vl.OracleFail{Key: key, What: "the Go code generated for a constant or default does not compile",
+			Input:    map[string]interface{}{"tag": u.Tag, "options": u.Options, "idl": prog.Render(), "cmd": "thriftgo -r -g go:" + strings.Join(u.Options, ",") + " " + prog.Files[0].Path},
+			Expected: "a Go constant/variable holding the IDL value", Observed: strings.TrimPrefix(m[1], u.Key+"/") + ": " + msg + "  | " + text})
+	}
 }
